@@ -655,6 +655,65 @@ def built_slice() -> Tuple[int, List[Violation]]:
     return n, viols
 
 
+def published_slice() -> Tuple[int, List[Violation]]:
+    """The signature a run PUBLISHES for a sweep node (canonical spec in pipeline_start, provenance in the node's SER) is the signature of
+    that node's own expression - also when several sweeps of one kind sit in one pipeline (BUILT_PAIRS: expressions that must differ)."""
+    import os
+
+    from mc import cli, harness
+    from semantiva.pipeline import Pipeline
+    from semantiva.trace.drivers.jsonl import JsonlTraceDriver
+
+    harness.quiet()
+    scratch = harness.enter_scratch()
+    viols: List[Violation] = []
+    n = 0
+
+    def sw(proc, par, e, extra=None):
+        nd = {"processor": proc, "derive": {"parameter_sweep": {"parameters": {par: e}, "variables": {"t": {"values": [1.0, 2.0]}, "u": {"values": [3.0]}},
+                                                                 "collection": "FloatDataCollection"}}}
+        nd.update(extra or {})
+        if extra:
+            del nd["derive"]["parameter_sweep"]["collection"]  # probe sweeps publish a list under their context key
+        return nd
+
+    for a, b in BUILT_PAIRS:
+        nodes = [sw("VSrc", "value", a), {"processor": "VSum"}, sw("VMul", "factor", a), {"processor": "VSum"}, sw("VMul", "factor", b), {"processor": "VSum"},
+                 sw("VFactorProbe", "factor", b, {"context_key": "k1"}), sw("VFactorProbe", "factor", a, {"context_key": "k2"})]
+        own = {0: a, 2: a, 4: b, 6: b, 7: a}
+        try:
+            cfg = harness.load_config({"extensions": ["verif_lib"], "pipeline": {"nodes": nodes}})
+            harness.clear_dir(scratch)
+            tp = os.path.join(scratch, "t.ser.jsonl")
+            pipe = Pipeline(cfg.nodes, trace=JsonlTraceDriver(tp, detail="hash"))
+            harness.run_pipeline(pipe, None, {}, None)
+            recs, _ = cli.collect_trace(tp)
+        except Exception:
+            continue  # an expression the sweep path does not take (e.g. abs of a collection): not this property's business
+        n += 1
+        start = next((r for r in recs if r.get("record_type") == "pipeline_start"), None)
+        sers = [r for r in recs if r.get("record_type") == "ser"]
+        if start is None:
+            continue
+        spec_nodes = start.get("pipeline_spec_canonical", {}).get("nodes", [])
+        for i, e in own.items():
+            want = impl_sig(e)
+            got_spec = (((spec_nodes[i].get("preprocessor_metadata") or {}).get("param_expressions") or {}) if i < len(spec_nodes) else {})
+            got_spec = next(iter(got_spec.values()), {}).get("sig", {}).get("ast") if got_spec else None
+            uuid = spec_nodes[i].get("node_uuid") if i < len(spec_nodes) else None
+            ser = next((r for r in sers if (r.get("identity") or {}).get("node_id") == uuid), None)
+            prov = (((ser or {}).get("processor") or {}).get("preprocessing_provenance") or {}).get("param_expressions") or {}
+            got_ser = next(iter(prov.values()), {}).get("sig", {}).get("ast") if prov else None
+            for where, got in (("pipeline_start canonical spec", got_spec), ("SER provenance", got_ser)):
+                if got is not None and got != want:
+                    viols.append(Violation("published-signature-is-not-the-node's-own", f"node {i} sweeps {e!r}: {where} publishes {got[:120]}, the expression's signature is {want[:120]}",
+                                           {"kind": "published", "a": a, "b": b}))
+                    break
+    if n == 0:
+        raise AssertionError("published_slice is vacuous: no pipeline with two sweeps of one kind could be traced")
+    return n, viols
+
+
 def check(tier: str, seed: int) -> Result:
     stats = {"families": {}, "evaluations": 0, "nontrivial": 0, "samples": []}
     viols: List[Violation] = []
@@ -677,6 +736,9 @@ def check(tier: str, seed: int) -> Result:
         run_chains([2, 3, 4], stats, viols)
     nb, vb = built_slice()
     viols.extend(vb)
+    npub, vpub = published_slice()
+    viols.extend(vpub)
+    nb += npub
     nlc, vlc = long_chains()
     viols.extend(vlc)
     stats["long_chain_forms"] = nlc
@@ -703,6 +765,8 @@ def check(tier: str, seed: int) -> Result:
 
 
 def replay(case) -> List[Violation]:
+    if case.get("kind") == "published":
+        return [v for v in published_slice()[1] if v.case["a"] == case["a"] and v.case["b"] == case["b"]]
     if case.get("kind") == "built":
         return [v for v in built_slice()[1] if v.case["a"] == case["a"] and v.case["b"] == case["b"]]
     a, b = case["a"], case["b"]
